@@ -331,21 +331,30 @@ class Run(object):
         xid = id(x)        # valid while the wrapper keeps x alive (weak references to x are
         box = [None]       # already cleared when a finalizer runs during collection)
 
-        def d(obj, box=box if dkind == 'cyc' else None):
+        cyc = dkind in ('cyc', 'rerelease')
+
+        def d(obj, box=box if cyc else None):
             r = run.info[st['node']]
             r['calls'] += 1
             if id(obj) != xid:
                 r['badarg'] = True
             if dkind == 'raises':
                 raise RuntimeError('injected destructor failure')
+            if dkind == 'rerelease' and box[0] is not None and r['calls'] == 1:
+                # the destructor releases its own wrapper again while it is running (an idempotent
+                # close() reached from the destructor): must be a no-op
+                run.out.fault('release_of_the_wrapper_from_inside_its_destructor')
+                run.ffi.release(box[0])
+                with box[0]:
+                    pass
 
         w = self.ffi.gc(x, d, size=(xid % 3) * 4096) if (xid // 16) % 2 else self.ffi.gc(x, d)
-        n = self.g.add(edges=[xnode], cyclic=(dkind == 'cyc'))
+        n = self.g.add(edges=[xnode], cyclic=cyc)
         src = self.info[xnode]
         self.rec(n, kind='gc', armed=True, wr=weakref.ref(w), block=src.get('block'), orig=xnode,
                  view=src.get('view'))
         st['node'] = n
-        if dkind == 'cyc':
+        if cyc:
             box[0] = w
             self.out.probe('destructor_closure_cycle')
         if dkind == 'raises':
@@ -936,7 +945,7 @@ class C21(core.Check):
                             rng.choice(['struct', 'struct', 'arr', 'prim']),
                             rng.weighted([('none', 3), ('ok', 4), ('bad', 2)]), rng.chance(0.7)])
             elif name == 'gc':
-                ops.append(['gc', k, rng.weighted([('ok', 6), ('raises', 2), ('cyc', 3)])])
+                ops.append(['gc', k, rng.weighted([('ok', 6), ('raises', 2), ('cyc', 3), ('rerelease', 2)])])
             elif name in ('gcnone', 'resize', 'deref', 'alias', 'bufview', 'write', 'read', 'drop', 'cycle'):
                 ops.append([name, k])
             elif name == 'release':
